@@ -294,3 +294,23 @@ def discharge_row(ses, cm, vs, P, blocks, row, label, kind, eps=0, extra=(), sam
     env = cm.env(vs)
     vt = viol_terms(row, env, z3, eps)
     return ses.oblige(label, P + list(extra) + env.defs, [z3.Or(vt)], kind=kind, core=core, sample=sample)
+
+
+def project_block(ses, cp, blk, vs, hyp, label, kind, core, twin=False, timeout_ms=None, sample=None):
+    """Exactness of one block: hyp (the oracle semantics over the interface) implies that the block's local
+    columns exist:  hyp /\\ forall locals: not block  must be unsat.  If the solver gives up, the equivalent
+    block with the equality-defined continuous locals eliminated exactly (CProg.eliminated) is tried."""
+    z3 = z3mod()
+    loc = sorted(blk['locals'])
+    bc = cp.block_cons(blk, vs)
+    q = z3.ForAll([vs[j] for j in loc], z3.Not(z3.And(bc))) if loc else z3.Not(z3.And(bc))
+    res, model = ses.oblige(label, hyp, [q], kind=kind, core=core, twin=twin, timeout_ms=timeout_ms, sample=sample)
+    if res == 'unknown' and loc:
+        vs2, rem = cp.eliminated(blk, vs)
+        if len(rem) < len(loc):
+            ses.retract(label, kind, core)
+            bc2 = cp.block_cons(blk, vs2)
+            q2 = z3.ForAll([vs[j] for j in rem], z3.Not(z3.And(bc2))) if rem else z3.Not(z3.And(bc2))
+            res, model = ses.oblige(label + '/eliminated(%dl)' % len(rem), hyp, [q2], kind=kind, core=core, twin=False,
+                                    timeout_ms=timeout_ms, sample=sample)
+    return res, model
